@@ -133,6 +133,9 @@ def worker_main(pid: str, shard_file: str, out_file: str) -> int:
     desc = json.loads(Path(shard_file).read_text())
     try:
         acc = mod.run_shard(desc)
+        from . import logmode
+
+        logmode.report(acc)
         out = acc.to_json()
     except BaseException:  # noqa: BLE001 - a crashed shard is inconclusive, say why
         out = {"crash": traceback.format_exc()}
@@ -174,6 +177,12 @@ def run_check(pid: str, tier: str, seed: int) -> int:
     mod = load_check(pid)
     pid = mod.PROPERTY
     shards = mod.shards(tier, seed)
+    # logging is a workload dimension (rtmon/logmode.py): every third shard that does not
+    # choose for itself runs with DEBUG logging on and every record formatted
+    every = getattr(mod, "DEBUGLOG_EVERY", 3)
+    for i, d in enumerate(shards):
+        if isinstance(d, dict) and "debuglog" not in d and every:
+            d["debuglog"] = (i % every) == every - 1
     scratch = Path(os.environ.get("VERIF_SCRATCH", f"/dev/shm/rtmon-{os.getpid()}"))
     scratch.mkdir(parents=True, exist_ok=True)
     env = dict(os.environ)
